@@ -134,4 +134,10 @@ func init() {
 		"\t\tc.Pledge.ClusterKey = c.Key()\n\t\tif err = pledge_.Arbitrate(c.Pledge); err != nil {\n\t\t\treturn c, err", "\t\tif err = pledge_.Arbitrate(c.Pledge); err != nil {\n\t\t\treturn c, err", "C11.R5.clusterkey")
 	mut("C11", "a joining node keeps a locally generated cluster key", clu,
 		"\t\tc.SetClusterKey(ctx, pledgeRes.ClusterKey)", "\t\tc.SetClusterKey(ctx, uuid.New())", "C11.R5.clusterkey")
+
+	// ---------------- C06.R1.complete / R6
+	mut("C06", "superseding operations with an empty key are skipped after the conflict rule", "aspen/internal/kv/filter_persist.go",
+		"			if err := op.apply(ctx, txn); err != nil {\n				return err\n			}\n			if err := op.Digest().apply(ctx, txn); err != nil {", "			if len(op.Key) == 0 {\n				continue\n			}\n			if err := op.apply(ctx, txn); err != nil {\n				return err\n			}\n			if err := op.Digest().apply(ctx, txn); err != nil {", "C06.R1.complete")
+	mut("C06", "a deleted key's lease falls back to the host", "aspen/internal/kv/lease.go",
+		"	return digest.Leaseholder, nil\n}", "	if digest.Variant == change.VariantDelete {\n		return la.Cluster.HostKey(), nil\n	}\n	return digest.Leaseholder, nil\n}", "C06.R6.lease")
 }
